@@ -1,1 +1,470 @@
+// Package esccmd: C10 — `murex --execute cmd arg...` and `esccli` escape an argument vector so that
+// murex's block and statement parsers give back exactly that vector.
+//
+// Seams, all on the real code:
+//   - exec:   mirror of main.argvToCmdLineStr (copy; escape.CommandLine; strings.Join " ") -> expressions.ParseBlock
+//     (exactly one function, command = the plain name) -> expressions.StatementParametersParser in exec mode
+//     (what lang.executeProcess calls) -> execution with a recording builtin.
+//   - esccli: the array is written (as JSON) to the stdin of the real `esccli` builtin, its output is appended
+//     to the plain command name and goes through the same three stages.
+//   - e2e:    the murex binary built from the tree under test is run as `murex --execute <argv dumper> arg...`
+//     on a small subset; this is the first sentence of the statement verbatim, and it binds the mirror
+//     to main.go: on the same subset the in-process run of the mirrored command line must print the same.
 package esccmd
+
+import (
+	"context"
+	"encoding/json"
+	"fmt"
+	"os"
+	"os/exec"
+	"path/filepath"
+	"strings"
+	"syscall"
+	"time"
+
+	"verif/checks/g2rec"
+	"verif/mx"
+	"verif/vlib"
+
+	"github.com/lmorg/murex/lang"
+	"github.com/lmorg/murex/lang/expressions"
+	"github.com/lmorg/murex/utils/escape"
+)
+
+// Σ(C08) ...
+var sigma = []string{"a", " ", "'", "\"", "$", "@", "~", "*", ";", "|", "&", "{", "}", "(", ")", "[", "#", "\\", "\n", "\r", "\t", "é", "\x01"}
+
+// ... plus the other punctuation the murex parsers give a meaning to
+var sigmaX = append(append([]string{}, sigma...), "%", "`", "=", "-", ">", "<", "?", ":", "!", "/", "]")
+
+// argvToCmdLineStr mirrors main.argvToCmdLineStr (/repo/main.go); bound to the binary by the e2e subset.
+func argvToCmdLineStr(argv []string) string {
+	cmdLine := make([]string, len(argv))
+	copy(cmdLine, argv)
+	escape.CommandLine(cmdLine)
+	return strings.Join(cmdLine, " ")
+}
+
+func init() {
+	vlib.Register(&vlib.Check{
+		ID: "C10", Engine: "E2",
+		Rule: "argument vectors after the plain command name `vargsrec`: (S1) one argument, every string up to length 3 (quick) / 4 (thorough) over the 23-character alphabet of C08 and up to length 2 / 3 over that alphabet plus % ` = - > < ? : ! / ]; (S2) two arguments of length <= 1 over the 34 characters and the empty string (thorough: also two arguments of length <= 2 and three of length <= 1 over the 23 characters and the empty string); (S3) every vector of 1..5 (quick) / 1..6 (thorough) arguments over {empty, a, space, $x}. Each vector is escaped by the mirror of argvToCmdLineStr and by the real esccli builtin (array on stdin), the result is parsed by expressions.ParseBlock (must be exactly one function with that command), by StatementParametersParser in exec mode and executed with a recording builtin (arguments must equal the vector). (E2E) vectors of one argument of length <= 1 (thorough <= 2) and two arguments of length <= 1 over a 12 (thorough 34) character alphabet are passed to the murex binary built from the tree under test as `--execute <argv dumper> arg...`. A failing vector is minimised (greedy deletion of arguments and characters while the same clause fails) and reported under the minimal vector. non-trivial = the escaped command line differs from the arguments joined by spaces (something had to be escaped) or an argument is empty",
+		Run:    run,
+		Replay: replay,
+		Post:   post,
+		Assumptions: []string{
+			"alphabets and bounds as stated in the rule; NUL is excluded (it cannot be passed in an OS argv)",
+			"the command name is a plain word; only the arguments are hostile",
+		},
+	})
+}
+
+type env struct {
+	c      *vlib.Ctx
+	script string
+	bin    string
+	memo   map[string][2]string // seam+argv -> clause, detail
+	binOut map[string]string    // e2e argv -> stdout of the binary
+}
+
+// the worker's HOME is redirected by mx.Init; the go tool needs the real one (module cache)
+var realHome = os.Getenv("HOME")
+
+func prepare(c *vlib.Ctx) *env {
+	mx.Init(c.WorkDir)
+	g2rec.Install()
+	e := &env{c: c, script: filepath.Join(c.WorkDir, "argvdump.sh"), memo: map[string][2]string{}, binOut: map[string]string{}}
+	if err := os.WriteFile(e.script, []byte("#!/bin/sh\nfor a in \"$@\"; do printf '%s\\0' \"$a\"; done\n"), 0755); err != nil {
+		c.HarnessError("cannot write argv dumper: %v", err)
+	}
+	// calibration
+	for _, seam := range []string{"exec", "esccli"} {
+		if cl, d := e.verdict(seam, []string{"a b", "c"}); cl != "" {
+			c.HarnessError("calibration failed on a harmless vector (%s): %s %s", seam, cl, d)
+		}
+	}
+	return e
+}
+
+func key(seam string, args []string) string {
+	b, _ := json.Marshal(args)
+	return seam + " " + string(b)
+}
+
+// roundTrip: the three in-process stages for one escaped parameter string.
+func roundTrip(line string, args []string) (stage, detail string) {
+	tree, err := expressions.ParseBlock([]rune(line))
+	if err != nil {
+		return "parse-error", fmt.Sprintf("ParseBlock(%q) failed: %s", line, vlib.Clip(err.Error(), 300))
+	}
+	if len(*tree) != 1 {
+		var names []string
+		for _, f := range *tree {
+			names = append(names, string(f.Command))
+		}
+		return "not-one-command", fmt.Sprintf("ParseBlock(%q) gave %d functions %q, expected exactly one", line, len(*tree), names)
+	}
+	f := (*tree)[0]
+	if string(f.Command) != g2rec.Recorder {
+		return "other-command", fmt.Sprintf("ParseBlock(%q) gave the command %q, expected %q", line, string(f.Command), g2rec.Recorder)
+	}
+	if len(f.NamedPipes) != 0 || len(f.Cast) != 0 {
+		return "redirection", fmt.Sprintf("ParseBlock(%q) took part of the arguments as a redirection/cast: pipes %q cast %q", line, f.NamedPipes, string(f.Cast))
+	}
+	fork := lang.ShellProcess.Fork(lang.F_FUNCTION | lang.F_NEW_MODULE | lang.F_NO_STDIN | lang.F_CREATE_STDOUT | lang.F_CREATE_STDERR)
+	fork.Name.Set(g2rec.Recorder)
+	name, params, err := expressions.StatementParametersParser(f.Raw, fork.Process)
+	fork.Kill()
+	if err != nil {
+		return "params-error", fmt.Sprintf("StatementParametersParser(%q) failed: %s", string(f.Raw), vlib.Clip(err.Error(), 300))
+	}
+	if name != g2rec.Recorder || !eq(params, args) {
+		return "params-differ", fmt.Sprintf("%q parsed (exec mode) to command %q parameters %q, expected %q", line, name, params, args)
+	}
+	// execution
+	g2rec.Reset()
+	r := mx.Run(line, nil)
+	if r.Hang {
+		return "hang", "caller still blocked after ceiling\n" + r.HangStack
+	}
+	calls := g2rec.Calls()
+	if len(calls) != 1 || !eq(calls[0], args) || r.Exit != 0 {
+		return "executed-differ", fmt.Sprintf("executing %q: recorder calls %q (exit %d, stderr %q), expected one call with %q", line, calls, r.Exit, vlib.Clip(r.Stderr, 200), args)
+	}
+	return "", ""
+}
+
+// verdict applies the oracle of one seam to one vector (memoised: minimisation revisits small vectors).
+func (e *env) verdict(seam string, args []string) (clause, detail string) {
+	k := key(seam, args)
+	if v, ok := e.memo[k]; ok {
+		return v[0], v[1]
+	}
+	switch seam {
+	case "exec":
+		line := argvToCmdLineStr(append([]string{g2rec.Recorder}, args...))
+		if st, d := roundTrip(line, args); st != "" {
+			clause, detail = "execute-argv-round-trip", st+": "+d
+		}
+	case "esccli":
+		js, _ := json.Marshal(args)
+		r := mx.Run("esccli", &mx.Opt{Stdin: js, StdinType: "json"})
+		switch {
+		case r.Hang:
+			clause, detail = "terminates", "esccli: caller still blocked\n"+r.HangStack
+		case r.Exit != 0 || !strings.HasSuffix(r.Stdout, "\n"):
+			clause, detail = "esccli-round-trip", fmt.Sprintf("esccli-failed: `<json %s> -> esccli`: %v", js, r)
+		default:
+			out := strings.TrimSuffix(r.Stdout, "\n")
+			line := g2rec.Recorder + " " + out
+			if len(args) == 0 {
+				line = g2rec.Recorder
+			}
+			if st, d := roundTrip(line, args); st != "" {
+				clause, detail = "esccli-round-trip", st+": esccli printed "+fmt.Sprintf("%q", out)+"; "+d
+			}
+		}
+	case "e2e":
+		got, raw, err := e.runBinary(args)
+		if err != nil {
+			clause, detail = "execute-binary-argv", fmt.Sprintf("`murex --execute <argv dumper> %q` failed: %v; %s", args, err, vlib.Clip(raw, 400))
+		} else if !eq(got, args) {
+			clause, detail = "execute-binary-argv", fmt.Sprintf("`murex --execute <argv dumper> %q`: the command received %q; %s", args, got, vlib.Clip(raw, 300))
+		}
+	}
+	if len(e.memo) < 200000 {
+		e.memo[k] = [2]string{clause, detail}
+	}
+	return
+}
+
+// runBinary: real binary, external argv dumper. Results are kept so that mirrorBinding does not run it again.
+func (e *env) runBinary(args []string) (got []string, raw string, err error) {
+	ctx, cancel := context.WithTimeout(context.Background(), 60*time.Second)
+	defer cancel()
+	cmd := exec.CommandContext(ctx, e.bin, append([]string{"--execute", e.script}, args...)...)
+	var so, se strings.Builder
+	cmd.Stdout, cmd.Stderr = &so, &se
+	cmd.Dir = e.c.WorkDir
+	rerr := cmd.Run()
+	if len(e.binOut) < 100000 {
+		e.binOut[key("e2e", args)] = so.String()
+	}
+	raw = fmt.Sprintf("stdout %q stderr %q", so.String(), vlib.Clip(se.String(), 300))
+	if ctx.Err() != nil {
+		return nil, raw, fmt.Errorf("timeout")
+	}
+	if rerr != nil {
+		return nil, raw, rerr
+	}
+	return splitNul(so.String()), raw, nil
+}
+
+func splitNul(s string) []string {
+	if s == "" {
+		return []string{}
+	}
+	p := strings.Split(s, "\x00")
+	if p[len(p)-1] == "" {
+		p = p[:len(p)-1]
+	}
+	return p
+}
+
+func eq(a, b []string) bool {
+	if len(a) != len(b) {
+		return false
+	}
+	for i := range a {
+		if a[i] != b[i] {
+			return false
+		}
+	}
+	return true
+}
+
+// minimise: greedy deletion of whole arguments, then of single characters, while the same clause fails.
+func (e *env) minimise(seam string, args []string, clause string) []string {
+	cur := append([]string{}, args...)
+	for again := true; again; {
+		again = false
+		for i := range cur {
+			cand := append(append([]string{}, cur[:i]...), cur[i+1:]...)
+			if cl, _ := e.verdict(seam, cand); cl == clause {
+				cur, again = cand, true
+				break
+			}
+		}
+		if again {
+			continue
+		}
+	chars:
+		for i := range cur {
+			rs := []rune(cur[i])
+			for j := range rs {
+				cand := append([]string{}, cur...)
+				cand[i] = string(rs[:j]) + string(rs[j+1:])
+				if cl, _ := e.verdict(seam, cand); cl == clause {
+					cur, again = cand, true
+					break chars
+				}
+			}
+		}
+	}
+	return cur
+}
+
+func (e *env) one(seam string, args []string, sample bool) {
+	c := e.c
+	line := argvToCmdLineStr(args)
+	nontrivial := line != strings.Join(args, " ")
+	for _, a := range args {
+		nontrivial = nontrivial || a == ""
+	}
+	clause, detail := e.verdict(seam, args)
+	outcome := seam + " ok"
+	if clause != "" {
+		st := detail
+		if i := strings.Index(st, ":"); i > 0 {
+			st = st[:i]
+		}
+		if len(st) > 30 {
+			st = "failed"
+		}
+		outcome = seam + " " + st
+		min := e.minimise(seam, args, clause)
+		if !eq(min, args) {
+			c.Extra("violations reported under a smaller vector", 1)
+			_, detail = e.verdict(seam, min)
+		}
+		c.Violation(clause, key(seam, min), detail)
+	}
+	c.Eval(nontrivial, outcome)
+	if sample {
+		c.Sample(map[string]any{"seam": seam, "argv": args, "escaped": line, "outcome": outcome})
+	}
+}
+
+// mirrorBinding: on the e2e subset the in-process run of the mirrored command line must print what the
+// binary printed (whether or not the vector round-trips).
+func (e *env) mirrorBinding(args []string) {
+	raw, ok := e.binOut[key("e2e", args)]
+	if !ok {
+		e.runBinary(args)
+		raw = e.binOut[key("e2e", args)]
+	}
+	line := argvToCmdLineStr(append([]string{e.script}, args...))
+	r := mx.Run(line, nil)
+	if r.Hang {
+		e.c.Violation("terminates", key("e2e", args), "in-process run of the mirrored command line blocked\n"+r.HangStack)
+		return
+	}
+	if r.Stdout != raw {
+		e.c.Violation("mirror-matches-binary", key("e2e", args), fmt.Sprintf("`murex --execute <argv dumper> %q` printed %q but the in-process run of the harness's copy of argvToCmdLineStr (%q) printed %q: main.argvToCmdLineStr no longer is copy + escape.CommandLine + join", args, raw, line, r.Stdout))
+	}
+}
+
+func run(c *vlib.Ctx) {
+	e := prepare(c)
+	n := 0
+	stop := false
+	do := func(seams []string, args []string) bool {
+		if !c.Next() {
+			return true
+		}
+		n++
+		if n&0x7f == 0 && c.Expired() {
+			stop = true
+			return false
+		}
+		for _, s := range seams {
+			e.one(s, args, n%5003 == 1)
+		}
+		return true
+	}
+	inproc := []string{"exec", "esccli"}
+	quick := c.Quick()
+	// S1
+	l23, l34 := 3, 2
+	if !quick {
+		l23, l34 = 4, 3
+	}
+	vlib.Strings(sigma, 0, l23, func(s string, _ []int) bool { return do(inproc, []string{s}) })
+	if stop {
+		return
+	}
+	vlib.Strings(sigmaX, 1, l34, func(s string, idx []int) bool {
+		for _, i := range idx {
+			if i >= len(sigma) {
+				return do(inproc, []string{s})
+			}
+		}
+		return true // already covered above
+	})
+	if stop {
+		return
+	}
+	// S2
+	e1 := append([]string{""}, sigmaX...)
+	vlib.Seqs(len(e1), 2, 2, func(idx []int) bool { return do(inproc, []string{e1[idx[0]], e1[idx[1]]}) })
+	if !quick && !stop {
+		var e2 []string
+		vlib.Strings(sigma, 0, 2, func(s string, _ []int) bool { e2 = append(e2, s); return true })
+		vlib.Seqs(len(e2), 2, 2, func(idx []int) bool { return do(inproc, []string{e2[idx[0]], e2[idx[1]]}) })
+		e3 := append([]string{""}, sigma...)
+		vlib.Seqs(len(e3), 3, 3, func(idx []int) bool { return do(inproc, []string{e3[idx[0]], e3[idx[1]], e3[idx[2]]}) })
+	}
+	if stop {
+		return
+	}
+	// S3
+	small := []string{"", "a", " ", "$x"}
+	maxN := 5
+	if !quick {
+		maxN = 6
+	}
+	vlib.Seqs(len(small), 1, maxN, func(idx []int) bool {
+		a := make([]string, len(idx))
+		for i, x := range idx {
+			a[i] = small[x]
+		}
+		return do(inproc, a)
+	})
+	if stop {
+		return
+	}
+	// E2E
+	e.bin = murexBinary(c)
+	e2e := func(args []string) bool {
+		if !c.Next() {
+			return true
+		}
+		n++
+		if c.Expired() {
+			stop = true
+			return false
+		}
+		e.one("e2e", args, n%97 == 1)
+		e.mirrorBinding(args)
+		return true
+	}
+	sub := []string{"", "a", " ", "$", ";", "'", "\"", "\\", "~", "{", "\n", "*", "|"}
+	l1 := 1
+	if !quick {
+		l1 = 2
+		sub = e1
+	}
+	vlib.Strings(sigmaX, 0, l1, func(s string, _ []int) bool { return e2e([]string{s}) })
+	vlib.Seqs(len(sub), 2, 2, func(idx []int) bool { return e2e([]string{sub[idx[0]], sub[idx[1]]}) })
+}
+
+// murexBinary returns the murex binary built from the tree under test (honouring VERIF_OVERLAY); it is
+// built once per run (first worker to take the lock) into /verif/.work and removed by post().
+func murexBinary(c *vlib.Ctx) string {
+	path := filepath.Join(vlib.Root, ".work", fmt.Sprintf("g2-murex-%d", os.Getppid()))
+	if c.NShards == 1 {
+		path = filepath.Join(c.WorkDir, "murex") // replay
+	}
+	lock, err := os.OpenFile(path+".lock", os.O_CREATE|os.O_RDWR, 0644)
+	if err != nil {
+		c.HarnessError("cannot create lock file: %v", err)
+	}
+	defer lock.Close()
+	if err := syscall.Flock(int(lock.Fd()), syscall.LOCK_EX); err != nil {
+		c.HarnessError("flock: %v", err)
+	}
+	defer syscall.Flock(int(lock.Fd()), syscall.LOCK_UN)
+	if _, err := os.Stat(path); err == nil {
+		return path
+	}
+	args := []string{"build"}
+	if ov := os.Getenv("VERIF_OVERLAY"); ov != "" {
+		args = append(args, "-overlay", ov)
+	}
+	tmp := fmt.Sprintf("%s.tmp%d", path, os.Getpid())
+	args = append(args, "-o", tmp, "github.com/lmorg/murex")
+	cmd := exec.Command("go1.26", args...)
+	cmd.Dir = vlib.Root
+	cmd.Env = append(os.Environ(), "GOFLAGS=-mod=mod", "GOPROXY=off", "GOSUMDB=off", "GOTOOLCHAIN=local", "CGO_ENABLED=0", "HOME="+realHome)
+	out, err := cmd.CombinedOutput()
+	if err != nil {
+		os.Remove(tmp)
+		c.HarnessError("cannot build the murex binary from the tree under test: %v\n%s", err, vlib.Clip(string(out), 2000))
+	}
+	if err := os.Rename(tmp, path); err != nil {
+		c.HarnessError("rename: %v", err)
+	}
+	return path
+}
+
+// post (parent process): remove the binary built for this run.
+func post(m *vlib.Merged) error {
+	p := filepath.Join(vlib.Root, ".work", fmt.Sprintf("g2-murex-%d", os.Getpid()))
+	os.Remove(p)
+	os.Remove(p + ".lock")
+	return nil
+}
+
+// replay: witness is `<seam> <json argv>`.
+func replay(c *vlib.Ctx, w string) {
+	e := prepare(c)
+	i := strings.Index(w, " ")
+	if i < 0 {
+		fmt.Println("unrecognised witness")
+		return
+	}
+	seam := w[:i]
+	var args []string
+	if err := json.Unmarshal([]byte(w[i+1:]), &args); err != nil {
+		fmt.Println("unrecognised witness:", err)
+		return
+	}
+	if seam == "e2e" {
+		e.bin = murexBinary(c)
+		e.mirrorBinding(args)
+	}
+	if cl, d := e.verdict(seam, args); cl != "" {
+		c.Violation(cl, w, d)
+	}
+}
